@@ -104,6 +104,8 @@ pub struct Dgram {
     pub forged: bool,
     /// length of the prefix that is byte-identical to the genuine datagram
     pub intact: usize,
+    /// pair id of the producing connection at the time of sending (handles get reused)
+    pub opair: Option<u64>,
 }
 
 impl PartialEq for Dgram {
@@ -302,7 +304,20 @@ pub enum Op {
     CloseAll { code: u32 },
     /// the endpoint vanishes: stops processing and sending
     Vanish { ep: usize },
+    /// start another connection from `from` to endpoint 0
+    Connect { from: usize, tcfg: Box<TcfgP>, app: Box<AppCfg> },
+    /// close one connection (by handle) of an endpoint
+    CloseOne { ep: usize, ch: usize, code: u32 },
     PathMtu { mtu: usize },
+}
+
+/// Virtual wall clock handed to quinn as `TimeSource` (token issue / expiry times).
+pub struct VirtClock(pub Arc<std::sync::atomic::AtomicU64>);
+
+impl proto::TimeSource for VirtClock {
+    fn now(&self) -> std::time::SystemTime {
+        std::time::UNIX_EPOCH + Duration::from_secs(1_700_000_000) + Duration::from_nanos(self.0.load(std::sync::atomic::Ordering::Relaxed))
+    }
 }
 
 pub struct World {
@@ -315,6 +330,10 @@ pub struct World {
     pub netcfg: NetCfg,
     pub drv: DriverCfg,
     pub rng: Rng,
+    /// separate streams so that driver-only variations do not perturb the network faults
+    pub rng_drv: Rng,
+    pub rng_late: Rng,
+    pub clock: Arc<std::sync::atomic::AtomicU64>,
     pub led: Ledger,
     pub mon: Mon,
     pub steps: u64,
@@ -368,6 +387,7 @@ fn mk_endpoint_config(spec: &EpSpec, seed: u64, idx: usize) -> EndpointConfig {
 impl World {
     pub fn new(seed: u64, lane: Lane, specs: Vec<EpSpec>, netcfg: NetCfg, drv: DriverCfg) -> Self {
         let t0 = Instant::now();
+        let clock = Arc::new(std::sync::atomic::AtomicU64::new(0));
         let mut eps = Vec::new();
         for (idx, spec) in specs.into_iter().enumerate() {
             let ec = Arc::new(mk_endpoint_config(&spec, seed, idx));
@@ -389,6 +409,7 @@ impl World {
                 sc.validation_token.sent(s.tokens_sent);
                 sc.retry_token_lifetime(Duration::from_millis(s.retry_lifetime_ms));
                 sc.max_incoming(s.max_incoming);
+                sc.time_source(Arc::new(VirtClock(clock.clone())));
                 Arc::new(sc)
             });
             let ep = Endpoint::new(ec, server_cfg.clone(), spec.allow_mtud);
@@ -415,6 +436,9 @@ impl World {
             netcfg,
             drv,
             rng: Rng::new(seed),
+            rng_drv: Rng::new(seed ^ 0xD51),
+            rng_late: Rng::new(seed ^ 0x1A7E),
+            clock,
             led: Ledger::default(),
             mon: Mon::new(lane),
             steps: 0,
@@ -427,6 +451,12 @@ impl World {
             polled_pending: BTreeSet::new(),
             pending_wake: false,
         }
+    }
+
+    /// Translate the whole run in time (must be called before anything happens).
+    pub fn shift_epoch(&mut self, d: Duration) {
+        assert!(self.steps == 0 && self.now == 0);
+        self.t0 += d;
     }
 
     pub fn instant(&self) -> Instant {
@@ -603,6 +633,7 @@ impl World {
                 copy,
                 forged,
                 intact,
+                opair: origin.and_then(|ch| self.eps[from_ep].conns.get(&ch).map(|c| c.pair)),
             });
         }
     }
@@ -611,7 +642,7 @@ impl World {
     pub fn inject(&mut self, at: u64, src: SocketAddr, dst: SocketAddr, ecn: Option<EcnCodepoint>, data: Vec<u8>, gid: u64, forged: bool) {
         self.net.seq += 1;
         let intact = if forged { 0 } else { data.len() };
-        self.net.q.push(Dgram { at, seq: self.net.seq, src, dst, ecn, data, origin: None, gid, copy: 1, forged, intact });
+        self.net.q.push(Dgram { at, seq: self.net.seq, src, dst, ecn, data, origin: None, gid, copy: 1, forged, intact, opair: None });
     }
 
     fn ep_of_addr(&self, a: &SocketAddr) -> Option<usize> {
@@ -832,6 +863,13 @@ impl World {
             };
             any = true;
             let drained = ee.is_drained();
+            if conn.forgotten {
+                // the connection already emitted Drained and the endpoint forgot it: anything
+                // it emits now would index a freed slot inside the endpoint
+                let desc = format!("{ee:?}");
+                self.led.violate("C08", format!("conn {ei}/{ch}: endpoint event after the final Drained event: {}", &desc[..desc.len().min(60)]));
+                continue;
+            }
             if let Some(tr) = &mut self.trace {
                 tr.push(format!("{} epev {ei}/{ch} drained={drained}", self.now));
             }
@@ -877,7 +915,7 @@ impl World {
             match t {
                 None => {
                     self.mon.post_transmit_none(ei, ch, conn, &pre, self.now, &mut self.led);
-                    if self.rng.chance(self.drv.extra_poll_pct) {
+                    if self.rng_drv.chance(self.drv.extra_poll_pct) {
                         // extra calls right after None must be harmless
                         buf.clear();
                         let t2 = conn.c.poll_transmit(now, self.drv.max_datagrams, &mut buf);
@@ -1036,6 +1074,23 @@ impl World {
             Op::Vanish { ep } => {
                 self.vanished.insert(ep);
             }
+            Op::Connect { from, tcfg, app } => {
+                if self.connect(from, 0, *tcfg, *app).is_ok() {
+                    self.mon.cnt.inc("op.connect");
+                }
+            }
+            Op::CloseOne { ep, ch, code } => {
+                let nowns = self.now;
+                if let Some(c) = self.eps[ep].conns.get_mut(&ch) {
+                    if !c.c.is_closed() {
+                        self.mon.on_local_close(ep, ch, c, nowns, code as u64, b"one");
+                        c.c.close(now, VarInt::from_u32(code), bytes::Bytes::from_static(b"one"));
+                        c.local_close_at = Some(nowns);
+                        self.mon.after_local_close(ep, ch, c, nowns);
+                        self.mon.cnt.inc("op.close_one");
+                    }
+                }
+            }
             Op::PathMtu { mtu } => {
                 self.netcfg.mtu = mtu;
                 self.netcfg.mtu_schedule.clear();
@@ -1065,6 +1120,7 @@ impl World {
     /// One instant of the world. Returns false if nothing can ever happen again.
     pub fn step(&mut self) -> bool {
         self.steps += 1;
+        self.clock.store(self.now, std::sync::atomic::Ordering::Relaxed);
         self.polled_pending.clear();
         self.pending_wake = false;
         // 1. deliveries due now
@@ -1102,8 +1158,10 @@ impl World {
         let keys: Vec<(usize, usize)> =
             self.eps.iter().enumerate().flat_map(|(ei, e)| e.conns.keys().map(move |k| (ei, *k))).collect();
         let now_i = self.instant();
-        for round in 0..70 {
+        let mut timer_rounds = 0;
+        for round in 0..100_000 {
             let mut progress = false;
+            let mut timer_fired = false;
             let keys_now: Vec<(usize, usize)> = if round == 0 {
                 keys.clone()
             } else {
@@ -1114,7 +1172,7 @@ impl World {
                     continue;
                 }
                 {
-                    let spurious = self.rng.chance(self.drv.spurious_timeout_pct);
+                    let spurious = self.rng_drv.chance(self.drv.spurious_timeout_pct);
                     let Some(conn) = self.eps[ei].conns.get_mut(&ch) else { continue };
                     let due = conn.c.poll_timeout().map_or(false, |t| t <= now_i);
                     if due || spurious {
@@ -1127,6 +1185,7 @@ impl World {
                         self.mon.after_timeout(ei, ch, conn, self.now, due, before, &mut self.led);
                         if due {
                             progress = true;
+                            timer_fired = true;
                         }
                     }
                 }
@@ -1136,12 +1195,47 @@ impl World {
             if !progress {
                 break;
             }
-            if round == 64 {
+            if timer_fired {
+                timer_rounds += 1;
+            }
+            if timer_rounds > 64 || round > 50_000 {
                 self.led.violate(
                     "C20",
                     format!("t={}ns: servicing timeouts/transmits at one instant did not settle within 64 rounds", self.now),
                 );
                 break;
+            }
+        }
+        // a drained connection produces nothing, whatever is polled
+        if self.steps % 4 == 0 {
+            let now_i = self.instant();
+            let mut msgs = vec![];
+            for (ei, e) in self.eps.iter_mut().enumerate() {
+                for (ch, c) in e.conns.iter_mut() {
+                    if c.c.is_drained() && c.drained_events > 0 {
+                        self.mon.cnt.inc("c20.drained_polls");
+                        let mut b = Vec::new();
+                        if c.c.poll_transmit(now_i, 3, &mut b).is_some() {
+                            msgs.push(format!("conn {ei}/{ch}: poll_transmit produced output after drain"));
+                        }
+                        if let Some(ev) = c.c.poll() {
+                            if !matches!(ev, Event::ConnectionLost { .. }) && c.app.events_seen > 0 {
+                                // events queued before the drain may still be read; anything new is not
+                            }
+                            c.app.on_event(&mut c.c, ev, &mut self.led);
+                        }
+                        if c.c.poll_endpoint_events().is_some() {
+                            msgs.push(format!("conn {ei}/{ch}: endpoint event after the Drained event"));
+                        }
+                        c.c.handle_timeout(now_i);
+                        if c.c.poll_transmit(now_i, 3, &mut b).is_some() {
+                            msgs.push(format!("conn {ei}/{ch}: poll_transmit produced output after drain + handle_timeout"));
+                        }
+                    }
+                }
+            }
+            for m in msgs {
+                self.led.violate("C20", m);
             }
         }
         // forget drained connections' bookkeeping
@@ -1151,7 +1245,7 @@ impl World {
         if let Some(t) = self.next_timer() {
             let mut t = t;
             if self.drv.timer_late_ns > 0 {
-                t += self.rng.below(self.drv.timer_late_ns + 1);
+                t += self.rng_late.below(self.drv.timer_late_ns + 1);
             }
             next = Some(next.map_or(t, |n| n.min(t)));
         }
